@@ -25,7 +25,10 @@ RULE = ("cases = random TypeSpec (as C01, incl. abstract origins, data classes, 
         "undecodable bytes, sets/iterators/generators/dict views, deep(60)/wide(1000) containers, date extremes, "
         "arbitrary objects, objects whose dunders raise Exception). Every call runs under a 3e6 logical-step budget "
         "(sys.monitoring LINE events in utype/). Non-trivial = the call was rejected or hit the budget (the clauses "
-        "of C04 talk about failures); distinct = (spec shape, route, option set, input class, outcome class).")
+        "of C04 talk about failures); distinct = (spec shape, route, option set, input class, outcome class). 4% of the cases: a "
+        "union of data classes selected by Field(discriminator=...) with any value under the discriminator key; 3%: one of the "
+        "ready-made constrained classes of utype.types (Timestamp, EmailStr, Year ...; several carry pre_validate / post_validate "
+        "hooks) called directly with hostile values and temporal extremes (datetime.min / max, timedelta.max ...).")
 ASSUMPTIONS = [
     "top-level data-class inputs whose keys are not strings are outside the statement (TypeError 'keywords must be strings' is exempt unless cast_keyword_str)",
     "a step budget separates 'loops' from 'long': exhaustion is confirmed at 10x budget and requires a <=12-line loop signature in the last 1e5 events",
@@ -100,9 +103,36 @@ def make_disc_case(rng):
             "spec": ("leaf", "int"), "route": "disc"}
 
 
+def _stock_types():
+    """the ready-made constrained types the library ships in utype.types (several carry pre_validate / post_validate hooks)"""
+    if "stock" not in _state:
+        import inspect
+        from utype import types, Rule
+        _state["stock"] = sorted(n for n, t in vars(types).items() if inspect.isclass(t) and issubclass(t, Rule) and t is not Rule
+                                 and not n.startswith("_") and getattr(t, "__module__", "") == "utype.types")
+    return _state["stock"]
+
+
+def make_stock_case(rng):
+    """a stock utype.types class called directly with anything whatsoever (temporal extremes included)"""
+    import datetime as dt
+    name = rng.choice(_stock_types())
+    extremes = [dt.datetime.min, dt.datetime.max, dt.date.min, dt.date.max, dt.timedelta.max, dt.timedelta.min,
+                dt.datetime(1, 1, 1, 12), dt.time.max, dt.datetime(9999, 12, 31, 23, 59, 59, tzinfo=dt.timezone.utc)]
+    inputs = []
+    for _ in range(12):
+        if rng.random() < 0.25:
+            inputs.append(lambda v=rng.choice(extremes): v)
+        else:
+            inputs.append(V.pick(rng, None)[1])
+    return {"fam": "stock", "name": name, "opts": {}, "inputs": inputs, "rng": rng, "spec": ("leaf", "int"), "route": "stock"}
+
+
 def make_case(i, rng, tier):
     if rng.random() < 0.04:
         return make_disc_case(rng)
+    if rng.random() < 0.03:
+        return make_stock_case(rng)
     depth = rng.choice([0, 1, 2, 2, 3]) if tier == "quick" else rng.choice([0, 1, 2, 2, 3, 3, 4])
     spec = TS.gen_spec(rng, depth, allow_lax=rng.random() < 0.2, abstract=rng.random() < 0.3,
                        dc=lambda r, d: TS.gen_dc(r, max(0, min(d, 1))))
@@ -148,6 +178,13 @@ def run_case(case, ctx):
                     b.created.append(c)
                 entry = Entry(lambda x: Hcls.__from__(x), judged=True)
                 spec = ("dc-with-discriminated-union", case["base"])
+            elif case.get("fam") == "stock":
+                ctx.count("stock_type_cases")
+                from ..routes import Entry
+                from utype import types as _types
+                Tstock = getattr(_types, case["name"])
+                entry = Entry(lambda x: Tstock(x), judged=True)
+                spec = ("stock-type", "utype.types." + case["name"])
             else:
                 ann = b.annotation(spec)
                 from utype import Rule
@@ -155,7 +192,7 @@ def run_case(case, ctx):
                 T = Rule.parse_annotation(ann)
                 entry = make_entry(route, ann, T, opts, wrap_bare=True)
         except Exception as e:
-            if case.get("fam") == "disc":
+            if case.get("fam") in ("disc", "stock"):
                 raise  # a fixed, legal declaration: failing to build it is a harness error, not a rejected declaration
             ctx.count("declaration_rejected:" + type(e).__name__)
             return
